@@ -13,6 +13,7 @@ import (
 
 	"github.com/hashicorp/go-slug/sourceaddrs"
 	"github.com/hashicorp/go-slug/sourcebundle"
+	"golang.org/x/sys/unix"
 
 	"verif/sim/simkit"
 	"verif/sim/worlds/bw"
@@ -95,8 +96,28 @@ func diffLists(a, b []string) string {
 	return strings.Join(d, " ; ")
 }
 
+// normaliseTimes pins the modification times of everything under root.
+func normaliseTimes(root string) {
+	var paths []string
+	filepath.Walk(root, func(p string, info os.FileInfo, err error) error {
+		if err == nil {
+			paths = append(paths, p)
+		}
+		return nil
+	})
+	sort.Strings(paths)
+	for i := len(paths) - 1; i >= 0; i-- {
+		ts := []unix.Timespec{{Sec: 1400000000 + int64(i)}, {Sec: 1400000000 + int64(i)}}
+		unix.UtimesNanoAt(unix.AT_FDCWD, paths[i], ts, unix.AT_SYMLINK_NOFOLLOW)
+	}
+}
+
 // compareTrees: the two directory trees are equal in the sense of C02.
 func compareTrees(a, b string, out *simkit.Outcome, what string) {
+	compareTreesAs(a, b, out, what, "C09")
+}
+
+func compareTreesAs(a, b string, out *simkit.Outcome, what, prop string) {
 	ta, tb := uwrun.ListTree(a), uwrun.ListTree(b)
 	var ps []string
 	for p := range ta {
@@ -111,36 +132,36 @@ func compareTrees(a, b string, out *simkit.Outcome, what string) {
 			if x.Kind == 'd' {
 				cls = "missing-dir"
 			}
-			out.Violate("C09", "files-differ", cls, fmt.Sprintf("%s: %s (%c) is missing", what, p, x.Kind))
+			out.Violate(prop, "files-differ", cls, fmt.Sprintf("%s: %s (%c) is missing", what, p, x.Kind))
 			continue
 		}
 		if x.Kind != y.Kind {
-			out.Violate("C09", "files-differ", "kind", fmt.Sprintf("%s: %s is %c, original %c", what, p, y.Kind, x.Kind))
+			out.Violate(prop, "files-differ", "kind", fmt.Sprintf("%s: %s is %c, original %c", what, p, y.Kind, x.Kind))
 			continue
 		}
 		switch x.Kind {
 		case 'f':
 			if string(x.Body) != string(y.Body) {
-				out.Violate("C09", "files-differ", "content", fmt.Sprintf("%s: %s content differs", what, p))
+				out.Violate(prop, "files-differ", "content", fmt.Sprintf("%s: %s content differs", what, p))
 			}
 			fallthrough
 		case 'd':
 			if x.Mode != y.Mode {
-				out.Violate("C09", "files-differ", "mode", fmt.Sprintf("%s: %s mode %o, original %o", what, p, y.Mode, x.Mode))
+				out.Violate(prop, "files-differ", "mode", fmt.Sprintf("%s: %s mode %o, original %o", what, p, y.Mode, x.Mode))
 			}
 			want := time.Unix(0, x.MtimeNs).Round(time.Second).UnixNano()
 			if y.MtimeNs != want {
-				out.Violate("C09", "files-differ", "mtime", fmt.Sprintf("%s: %s mtime %d, original %d (rounded %d)", what, p, y.MtimeNs, x.MtimeNs, want))
+				out.Violate(prop, "files-differ", "mtime", fmt.Sprintf("%s: %s mtime %d, original %d (rounded %d)", what, p, y.MtimeNs, x.MtimeNs, want))
 			}
 		case 'l':
 			if x.Target != y.Target {
-				out.Violate("C09", "files-differ", "target", fmt.Sprintf("%s: link %s -> %q, original -> %q", what, p, y.Target, x.Target))
+				out.Violate(prop, "files-differ", "target", fmt.Sprintf("%s: link %s -> %q, original -> %q", what, p, y.Target, x.Target))
 			}
 		}
 	}
 	for p := range tb {
 		if _, ok := ta[p]; !ok {
-			out.Violate("C09", "files-differ", "extra", fmt.Sprintf("%s: %s is not in the original bundle", what, p))
+			out.Violate(prop, "files-differ", "extra", fmt.Sprintf("%s: %s is not in the original bundle", what, p))
 		}
 	}
 }
@@ -188,6 +209,11 @@ func runShip(sc *bw.Scenario, book *simkit.TapeBook, cl *closure, res *vresult, 
 	root := res.r.target
 	dst := "/w/extracted"
 	os.MkdirAll(dst, 0o755)
+	// What the builder and the fetcher peer created carries wall-clock times, which end up in
+	// the archive headers and so in the length of the compressed stream. They are data of
+	// this run, not clock readings of the code under test: pin them, so that the same
+	// scenario ships byte-identical archives (and a breaking pipe breaks at the same place).
+	normaliseTimes(root)
 	sched := book.NewSched(log, sc.Seed, "bw/ship", "random")
 	pipe := simkit.NewSimPipe(sc.PipeCap, sched, log)
 	pipe.BreakAt = sc.PipeBreak
@@ -233,7 +259,12 @@ func runShip(sc *bw.Scenario, book *simkit.TapeBook, cl *closure, res *vresult, 
 			}
 		}
 		if rerr == nil && b2 != nil {
-			out.Violate("C12", "extract-ok-on-broken-stream", "partial", fmt.Sprintf("the pipe broke after %d bytes but ExtractArchive returned a bundle", sc.PipeBreak))
+			// legitimate only if the break came after everything the receiver needs
+			// (behind the end-of-archive marker): then what arrived must be complete
+			if d := diffLists(orig, fingerprint(b2, dst, sc, cl)); d != "" {
+				out.Violate("C12", "extract-ok-on-broken-stream", "partial", fmt.Sprintf("the pipe broke after %d bytes, ExtractArchive returned a bundle, and it differs: %s", sc.PipeBreak, d))
+			}
+			compareTreesAs(root, dst, out, "archive extracted from a broken pipe", "C12")
 		}
 		return
 	}
